@@ -85,7 +85,9 @@ def check(ck, F, rule, prefixes, floor):
         if fn is None or "mir" not in fn:
             continue            # renamed / removed: not comparable
         if flow.calls_new_function(F, fn):
-            continue            # refactored by extraction into a new helper: not comparable
+            for var in ref:     # refactored by extraction into a new helper: not comparable
+                ck.ok(rule, "%s#%s" % (fid, var), "not compared: the function now calls a helper that did not exist on the reference tree", nontrivial=False)
+            continue
         b = Body(fn)
         pn = set(_param_names(b).values())
         cur = function_influences(fn)
